@@ -49,6 +49,10 @@ CHECKS = {
    technique="stateless exploration of all schedules (2 openers: complete; 3 openers: preemption-bounded) of opener threads at system-call granularity with flock modelled by the scheduler per inode",
    text="Two and three openers of the same file, existing or not yet created, each committing a marker while it holds the database: under every explored schedule never two openers inside, every open returns Ok, each opener sees the markers of all openers that closed before its open returned, no deadlock, all markers in the final file.",
    note="Openers are threads with independent descriptors (flock is per open file description); the library has no process-wide state. A cross-check with real forked processes is not built."),
+ "C03": dict(engine="seqx", cat="model_checking", ref="DESIGN.md §2 C03",
+   technique="explicit-state breadth-first search over single-threaded interleavings of open-reader / close-reader / committing and rolled-back writers on the real library; every open reader fully re-dumped after every action and compared with the state recorded when it was opened",
+   text="All action sequences to the stated depth over {open reader (up to k open), close reader i, commit j, drop j} with a page-reusing update/delete menu: after every action every long-lived read transaction must still dump exactly the state committed when it began (a consistent newer state is a violation here). Unmapped database memory is replaced by inaccessible pages so a stale pointer faults deterministically.",
+   note="Trusted: refmodel; the file is pre-sized because growing it while the same thread holds a reader self-deadlocks by design (documented)."),
 }
 
 NA = {}
